@@ -107,7 +107,8 @@ def check(ctx):
            loc=loc(fu, blk), message=f"proposed step is {new}",
            consequence="the adaptive step does not follow the documented rule (eq. dt-tentative)")
     # canonical spelling (src._CanonCompare): `step > window` reads `window < step`
-    ok = any(re.fullmatch(r".*adaptive_window < .*step.*", d) for d in decided)
+    # the counter compared with the window is the solve-step counter handed in by the runner (state["step"]), nothing else
+    ok = any(d.replace('"', "'") in ("self.options.adaptive_window < state['step']", "options.adaptive_window < state['step']") for d in decided)
     ctx.ob("R12.1", "the rule applies only for step > window (warm-up)", ok, detail=decided, where=fu.fq,
            construct="warm-up guard", loc=loc(fu, blk), message=f"guards decided: {decided}",
            consequence="the step is adapted before the window is filled (mean over fewer values than documented)")
